@@ -3567,9 +3567,11 @@ static Node *primary(Token **rest, Token *tok) {
     VarScope *sc = find_var(tok);
     *rest = tok->next;
 
-    // For "static inline" function
+    // For "static inline" function. A static local variable is
+    // emitted even if the enclosing function is not, so a function
+    // named in its initializer is referenced unconditionally.
     if (sc && sc->var && sc->var->is_function) {
-      if (current_fn)
+      if (current_fn && !in_gvar_initializer)
         strarray_push(&current_fn->refs, sc->var->name);
       else
         sc->var->is_root = true;
